@@ -320,6 +320,18 @@ def r4(ctx, facts, cfg):
     # the cache is filled from every sink of every valid logger; the collector never ends the iteration early
     lams = [x for x in facts.fns if x.config == cfg and x.rec.get("parent") == f.name]
     col = [l for l in lams if l.calls(r"std::vector<quill::Sink \*.*>::push_back$")]
+    via_helper_ok = True
+    if not col:
+        # the collection extracted into a member function that this one calls before it visits the sinks
+        for h in facts.callgraph(cfg).get(id(f), ()):
+            if h.cls != f.cls or h is f:
+                continue
+            hl = [x for x in facts.fns if x.config == cfg and x.rec.get("parent") == h.name and x.calls(r"std::vector<quill::Sink \*.*>::push_back$")]
+            if hl:
+                col = hl
+                hp = npos(f, [c_ for c_ in f.calls() if c_.get("callee") and short(c_["callee"]) == h.short])
+                via_helper_ok = bool(hp) and all(g.dominates(hp, p_) for p_ in npos(f, flush_calls))
+                break
     if not col:
         raise AnalysisBroken("_flush_and_run_active_sinks: collector lambda not found")
     l = col[0]
@@ -354,7 +366,7 @@ def r4(ctx, facts, cfg):
     any_logger = not valid_br or all(lg.exists_path([y for (y, l2) in lg.succ.get(tnode(lg, b), ()) if l2 == other(t)], pbp) for (b, t, c) in valid_br)
     pol = any_logger and bool(absent) and not lg.exists_path([lg.entry_node], pbp, avoid_edges=absent) and eq_ok
     ok = never_early and in_loop and pol
-    ctx.ob("C06.R4c", "_flush_and_run_active_sinks:collects-all-sinks", ok,
+    ctx.ob("C06.R4c", "_flush_and_run_active_sinks:collects-all-sinks", ok and via_helper_ok,
            "the active-sink cache receives every sink of every registered logger — a removed one included, until it is erased: the "
            "collector walks all sinks of a logger and returns false (never ends for_each_logger early) — never early: %s, loop over "
            "logger->sinks: %s; a sink is added on the outcome 'not yet in the cache' whether or not the logger is still valid, membership "
